@@ -29,6 +29,7 @@ type Obligation struct {
 	Model  string
 	Dead   bool
 	Except string // known finding: Bool term describing the recorded failing inputs
+	Stage  int    // solving stage that decided the obligation (1, 2: sliced; 3: full abstract; 4: full exact)
 }
 
 // Exec is the verification-condition generator state for one function under verification.
